@@ -42,12 +42,13 @@ class Sut(object):
             self.folder = tempfile.mkdtemp(prefix="vt", dir=scratch)
             self.own_folder = True
         rules = {a: RX[r] for a, r in cfg["rules"]}
+        self.stats = audit_stats if audit_stats is not None else Counter()
         self.t = Traph(
             folder=self.folder,
             overwrite=cfg.get("overwrite", False),
             encoding=cfg.get("encoding", "utf-8"),
             default_webentity_creation_rule=RX[cfg["default"]],
-            webentity_creation_rules=dict(rules),
+            webentity_creation_rules=self.rule_keys(rules),
         )
         self.m = Model(RX[cfg["default"]], rules)
         self.idmap = {}  # gid -> actual id
@@ -104,6 +105,22 @@ class Sut(object):
 
     def arg(self, lru, as_str):
         return lru.decode(self.cfg.get("encoding", "utf-8")) if as_str else lru
+
+    def rule_keys(self, rules):
+        """Rule anchors may be given as text as well as bytes: mix both (deterministically per anchor)."""
+        enc = self.cfg.get("encoding", "utf-8")
+        out = {}
+        for a, pat in rules.items():
+            key = a
+            if (len(a) + a[-2]) % 3 == 0:
+                try:
+                    if a.decode(enc).encode(enc) == a:
+                        key = a.decode(enc)
+                        self.stats["text_rule_anchors"] += 1
+                except Exception:
+                    pass
+            out[key] = pat
+        return out
 
     def Q(self, lru):
         """Query argument: the API accepts text too (encoded with the index encoding); pass it as text now
@@ -326,15 +343,21 @@ class Sut(object):
                             return out
                         t.delete_webentity(self.idmap[gid], list(op["prefixes"]))
                     elif k == "bad_rmp":
-                        if m.we.get(op["prefix"]) in (None, gid):
+                        if m.we.get(op["prefix"]) == gid:
                             self.stats["ops_skipped"] += 1
                             return out
+                        m.ins(op["prefix"])
+                        before = dict(m.we)
                         t.remove_prefix_from_webentity(op["prefix"], self.idmap[gid])
                     else:
-                        if m.we.get(op["prefix"]) in (None, gid):
+                        if m.we.get(op["prefix"]) == gid:
                             self.stats["ops_skipped"] += 1
                             return out
-                        t.move_prefix_to_webentity(op["prefix"], self.idmap[gid], self.idmap[gid])
+                        m.ins(op["prefix"])
+                        before = dict(m.we)
+                        others = sorted(set(self.idmap.values()) - {self.idmap[gid]})
+                        target = others[0] if others else self.idmap[gid]
+                        t.move_prefix_to_webentity(op["prefix"], target, self.idmap[gid])
                     refused = False
                 except TraphException:
                     refused = True
@@ -360,6 +383,17 @@ class Sut(object):
                 m.remove_rule(op["anchor"])
             elif k == "reopen":
                 self.reopen()
+            elif k == "overwrite_open":
+                rules = {a: RX[r] for a, r in op["rules"]}
+                t.close()
+                self.t = Traph(folder=self.folder, overwrite=True, encoding=self.cfg.get("encoding", "utf-8"),
+                               default_webentity_creation_rule=RX[op["default"]], webentity_creation_rules=self.rule_keys(rules))
+                m.clear(RX[op["default"]], rules)
+                m.take_groups()
+                self.max_id = 0
+                self.idmap = {}
+                self.rid = {}
+                self.stats["overwrite_opens"] += 1
             elif k == "clear":
                 rules = None if op["rules"] is None else {a: RX[r] for a, r in op["rules"]}
                 dflt = RX[op["default"]] if op["default"] else None
@@ -379,6 +413,7 @@ class Sut(object):
                 "batch": ["C01", "C03"], "create": ["C04"], "delete": ["C04"], "addp": ["C04"],
                 "rmp": ["C04"], "mvp": ["C04"], "rule": ["C06"], "rmrule": ["C06"],
                 "reopen": ["C11"], "clear": ["C11"], "bad_delete": ["C04"], "bad_rmp": ["C04"], "bad_mvp": ["C04"],
+                "overwrite_open": ["C11"],
             }[k]
             out.append(D(props, "exception-in-write", op=k, exc=type(e).__name__, msg=str(e)[:200],
                          tb=traceback.format_exc()[-600:], backend=self.cfg["backend"]))
@@ -495,7 +530,7 @@ class Sut(object):
             overwrite=False,
             encoding=self.cfg.get("encoding", "utf-8"),
             default_webentity_creation_rule=m.default_pattern,
-            webentity_creation_rules=rules,
+            webentity_creation_rules=self.rule_keys(rules),
         )
         m.rules = {a: m.rules[a] for a in m.flags}
         self.stats["reopens"] += 1
